@@ -160,7 +160,9 @@ def run(tier, seed):
     if avh and avm:
         # ------------------------------------------------------------ correspondence + oracle on the copy / duplicate stream
         n1 = 4000 if tier == "thorough" else 560
+        ctx.log("binaries ready; correspondence batch (%d scripts)" % n1)
         res = batch(avh, avm, seed, tier, "dup,serialize", n1, "corr", True)
+        ctx.log("correspondence batch done")
         shards = res["shards"]
         errs = [s["error"] for s in shards if s.get("error")]
         nscr = sum(s.get("n", 0) for s in shards)
@@ -179,6 +181,7 @@ def run(tier, seed):
         # ------------------------------------------------------------ oracle-only stream with loaded documents (nameless SHORT-NAME)
         n2 = 1600 if tier == "thorough" else 240
         res2 = batch(avh, avm, seed + 17, tier, "dup,serialize,load", n2, "oracle", False)
+        ctx.log("oracle batch done")
         errs2 = [s["error"] for s in res2["shards"] if s.get("error")]
         all_shards = [(s, "corr") for s in shards] + [(s, "oracle") for s in res2["shards"]]
         fails = []
@@ -246,6 +249,7 @@ def run(tier, seed):
                         ctx.notes.append("known finding %s no longer reproduces (a fix landed?)" % key)
                     # anything else the finding script shows is not covered by the finding
                     unknown += [dict(f, shard_file=fs) for f in mine if classify(f) is None]
+        ctx.log("known findings replayed")
         # ------------------------------------------------------------ unexplained oracle failures: confirm, minimise
         confirmed, seen = [], set()
         for f in unknown:
